@@ -6,9 +6,11 @@ n=0; missed=0
 for d in seeded/${1:-*}/; do
   id=$(basename "$d")
   prop=$(/venv/bin/python -c "import json;print(json.load(open('$d/meta.json'))['property'])")
-  res=$(tools/try_mutant.sh "$d/patch.diff" "$prop" 2>&1)
+  # the check(s) expected to catch it: the property's own, unless meta.json names others (cross-property catches)
+  checks=$(/venv/bin/python -c "import json;m=json.load(open('$d/meta.json'));print(' '.join(m.get('caught_by_checks') or [m['property']]))")
+  res=$(tools/try_mutant.sh "$d/patch.diff" $checks 2>&1)
   if echo "$res" | grep -q "exit=1 :: [1-9]"; then
-    echo "CAUGHT $id ($prop): $(echo "$res" | grep "^$prop\." | head -1 | cut -c1-140)"
+    echo "CAUGHT $id ($prop): $(echo "$res" | grep "^C[0-9][0-9]\." | head -1 | cut -c1-140)"
   else
     echo "MISSED $id ($prop): $(echo "$res" | grep -v WARNING | head -3 | tr '\n' ' ' | cut -c1-200)"; missed=$((missed+1))
   fi
